@@ -19,6 +19,9 @@ Decided (writer/reader agreement and who-produces, on ast normal forms):
                  the same modifier flags, and the resolution is built before slot.type is overwritten.
   C11.pm-range   the hour arithmetic of to_pm, which _resolve_ampm applies to already-resolved values, maps every
                  hour 0..23 into 0..23.
+  C11.sentinel-guard  every date constructor that takes month and day (but not the year) from one date object, and every
+                 .replace(year/month/day=..) on a local that may hold a safe_create* result, is dominated by a validity
+                 test of that object (is_valid_datetime, ==/!= min_value, or an ordering that only a real date satisfies).
   C11.range-order in a date-range parser that merges two parsed dates, the statements adjusting (future/past, begin/end)
                  are interpreted on every position of two year-less endpoints and the reference in a small model year:
                  begin <= end must hold afterwards in both resolutions.
